@@ -15,6 +15,7 @@ def run(w, rep, tier):
     rep.rule("C08.init", "x1(dt = 0) = x0 with the series limits at 0")
     rep.rule("C08.regular", "constant propagation of omega_b = 0 and of dt = 0 through the generated expression: no division by zero, sqrt(0), acos(+-1) on the selected if_else path")
     rep.rule("C08.series", "every series coefficient of the mixed exponential is read from the table that matches its argument (squared table <-> theta^2, even formula)")
+    rep.rule("C08.table", "necessary for 'no discretisation error': every series coefficient the propagation reads switches to its Taylor polynomial with the default order 6 below the default threshold 1e-3, of the same formula (C06.table restricted to the entries consumed here)")
     rep.rule("C08.norm", "|q1|^2 = 1 for unit q0")
     rep.rule("C08.sig", "Function signature: inputs (x0[10], a_b[3], omega_b[3], g, dt), one output x1[10]")
     rdd2 = w.mod("cyecca.models.rdd2")
@@ -53,6 +54,13 @@ def run(w, rep, tier):
     from .c06 import check_series_consumers
     check_series_consumers(w, rep, uses, "C08.series")
     rep.floor("C08.series", 5)
+    # "no discretisation error for any dt": below its switch a coefficient is a truncated polynomial, exact to rounding only
+    # because the switch sits at 1e-3 with six terms. An entry read by the propagation that widens its switch or shortens
+    # its polynomial (seeded C08-14: eps=1.0, three terms in theta^2 for the C3 coefficient) puts every step with
+    # |omega| dt below the new threshold on a polynomial whose truncation error is visible (2.6e-7 relative in position).
+    from .c06 import check_table
+    used_keys = {u[3] for u in uses}
+    check_table(w, rep, rule="C08.table", keys=used_keys, floor=6 + len(used_keys))
     if not ok:
         return
     f = eqs.get("strapdown_ins_propagate") if isinstance(eqs, dict) else None
